@@ -1,9 +1,9 @@
 """C20 — fitting a single tree agrees with the library pipeline and the closed form."""
-import contextlib, csv, io, json, math, os, re, types
+import contextlib, csv, io, itertools, json, math, os, re, shutil, sys, time, types
 import numpy as np
 import common, extract, libgen, fitlib, oracle_mdl
 
-LEAN_MODULE = ["ESRVerif.Props.C20", "ESRVerif.Props.C20b"]
+LEAN_MODULE = ["ESRVerif.Props.C20", "ESRVerif.Props.C20b", "ESRVerif.Props.C20c"]
 LEVEL = "other"
 LEVEL_TEXT = ("Partial proof. (1) Decided in Lean on tables regenerated from fit_single.single_function by symbolic execution (values named by the routine and result "
               "index they come from, not by local variable; per path of the flags is_mse / return_params / verbose): the first returned value is element 1 of the Fisher "
@@ -25,24 +25,47 @@ LEVEL_TEXT = ("Partial proof. (1) Decided in Lean on tables regenerated from fit
               "entry point) against the pipeline's rows for the same trees and against the closed-form value for trees linear in their parameters, "
               "and the exact-sum identity on the values the API itself reports and on the values the traced routines returned inside the call; trees with integer "
               "constants (repeated ones included) and data sets built so that one parameter is snapped to zero are fitted through both entry points too; step (4) "
-              "(tree code length) is compared with k ln n + sum ln|c| and with the Lean model on PRNG label lists.")
+              "(tree code length) is compared with k ln n + sum ln|c| and with the Lean model on PRNG label lists. (3) Proved in Lean (Props/C20c) over the model of the composition "
+              "single_function = optimise_fun ; convert_params ; aifeyn_complexity ; sum (Model/SingleFit over C10's Model/Optim) and the optimiser table REGENERATED from test_all.py, which carries per "
+              "(parameter-count arm, log_opt) whether the optimisation ran in linear or log10 space (flag_three: its initial expression evaluated for the arm, or-ed with the assignments on the arm's path): "
+              "flag_per_option_setting / findBranch_flag - the flag says linear exactly outside (log_opt and <= 2 parameters), for every nparam; fisher_input_is_backtransformed - for every row of the table "
+              "(arm x log_opt x sign branch) and both back-transformations (normal exit, timeout handler) the vector handed to the Fisher/code-length routine is sign_i*10**x_i exactly when the arm ran in "
+              "log space and x itself exactly when it ran in linear space, and it is the point chi2_fcn evaluated the likelihood at; single_terms_at_reported_point - whenever single_function returns, its "
+              "three values come from ONE call of the Fisher routine on exactly the (theta, chi2) optimise_fun returned, and under MinimiserSpec nll(theta) = chi2 in every option setting; "
+              "backtransform_flag_needed (+ wrong_flag_reports_optimiser_vector, wrong_flag_row_rejected) - with the flag wrong for (log_opt, two parameters) the reported parameters are log10|a| and do not "
+              "reproduce the reported value (concrete instance). Tied to the code by a scripted-minimiser run of the REAL single_function (test_all.minimize replaced by a PRNG-scripted oracle, the Fisher "
+              "routine by a recorder) against the model through the line protocol (op singlefit): returned (nll, DL, params) and the (theta, chi2) handed on, log_opt x 0..3 parameters. Sampled on the "
+              "unmodified code over the option space the property quantifies over: log_opt in {False, True} x 0, 1, 2, 3 parameters x every sign pattern of the true parameters x both entry points, each "
+              "against the closed form, against the pipeline stages (real test_all.main -> test_all_Fisher.main -> match.main on a library holding the tree as its own unique function) run under the SAME "
+              "options, and 'the reported parameters reproduce the reported NLL' with an independent likelihood.")
 TECHNIQUE = ("Lean 4 decision over the regenerated assembly of single_function + Lean 4 proof that the Fisher-stage and matching-stage copies of the snapping / "
              "code-length logic coincide on the identity chain (hand models of C07/C05) + differential runs of the two real routines on the same inputs + "
-             "differential runs single API vs pipeline vs closed form")
+             "differential runs single API vs pipeline vs closed form over log_opt x parameter count x sign pattern x entry point + Lean 4 proof over the regenerated optimiser table that the "
+             "single-tree API hands the back-transformed optimum to the Fisher routine + scripted-minimiser correspondence of the real single_function with that model")
 RULE = ("one case = one (data set, tree) fitted through single_function and fit_from_string, compared with the pipeline row of the same line and the closed form; "
         "non-trivial = the tree has >=1 parameter, is linear in them and is not within 5% of a snapping threshold; distinct by (data seed, tree) - library trees, "
         "integer-constant trees and designed snapped-parameter data sets.  Step (4): one case = one PRNG label list through aifeyn_complexity as single_function calls it, "
         "non-trivial = it holds an integer or a parameter.  "
         "Fisher-vs-match: one case = one (data set, linear model, theta) pushed through the real convert_params and then, via the stage files, through the real "
-        "match.main; distinct by (number of parameters, basis functions, per-coordinate threshold class and sign); non-trivial = at least one parameter")
+        "match.main; distinct by (number of parameters, basis functions, per-coordinate threshold class and sign); non-trivial = at least one parameter.  "
+        "Option space: one case = one (tree with 0..3 parameters, data set whose weighted-least-squares solution is a drawn point of a given sign pattern, log_opt) fitted through single_function, "
+        "fit_from_string and the pipeline stages under the same options; distinct by (formula, log_opt, sign pattern, numpy seed); non-trivial = at least one parameter.  "
+        "Scripted single_function: one case = one (tree, log_opt, Niter, Nconv, scripted sequence of minimiser outcomes incl. NaN/inf/ties/exceptions); non-trivial = the loop was entered")
 EXPLANATION = LEVEL_TEXT
 TRUSTED = ["harness/oracle_mdl.py (closed form)", "harness/extractors/single.py + harness/extractors/_norm_c20.py (symbolic reading of single_function; normalisations N1-N8 of its docstring: "
            "local names/temporaries replaced by the value they hold, tuple/chained/unpacking assignment, conditional expression vs if/else and result variable vs early return (per-path returned value), "
            "not/and/or/bool() of flag parameters, import spelling of a callee, one level of straight-line helper/closure inlining, print/pass/docstrings without value; sums keep order and association)",
            "hand models ESRVerif/Model/Codelen.lean and ESRVerif/Model/Match.lean (tied to the code by the correspondences of C07 and C05, and here by the direct "
            "differential run of the two real routines)", "'%.7e' text round-off between stages (decisions compared exactly away from |Nsteps-1| < 1e-6 and at exactly "
-           "representable thresholds; magnitudes to 1e-6)"]
-ASSUMPTIONS = ["MinimiserSpec (numerical): sampled with tolerance 5e-3 in NLL/DL", "the formula-string entry point is compared on formulas whose conversion returns the same label list",
+           "representable thresholds; magnitudes to 1e-6)",
+           "hand models ESRVerif/Model/Optim.lean (C10's model of optimise_fun's selection loop and back-transformation) and ESRVerif/Model/SingleFit.lean (steps 2-5 of single_function), tied by the "
+           "scripted-minimiser correspondences of C10 (optimise_fun) and of this check (single_function: exact on the likelihood term, 1e-12 on DL, 1e-9 on parameters)",
+           "harness/extractors/optim.py (sign table, flag_three per (arm, log_opt), comparison operators, constants, back-transformation)",
+           "scipy.optimize.minimize(method=BFGS) - not modelled; sampled against the closed form"]
+ASSUMPTIONS = ["MinimiserSpec (numerical): sampled with tolerance 5e-3 in NLL/DL",
+               "option space: true parameters with log10|p| in [0.1, 1.5] (inside the search box pmin=0, pmax=3 of test_all.main, handed to the single API too), Niter=30, Nconv=5 (defaults of single_function, "
+               "handed to the pipeline stage as Niter_params=[30], Nconv_params=[5]); data sets on which no parameter is within 5% of its snapping threshold; 'reported parameters reproduce the reported NLL' to 1e-7 relative",
+               "single_terms_at_reported_point: MinimiserSpec (scipy returns fun = objective(x) and x of the length of the start point); returned value below the 1e100 threshold; nparam >= 1", "the formula-string entry point is compared on formulas whose conversion returns the same label list",
                "fisher_vs_match_identity_chain: hfin (snapping never makes the likelihood infinite) - holds for every tree linear in its parameters with a Gaussian likelihood; "
                "positive finite Hessian diagonal; sympy/numpy at the identity chain (empty substitution loop, identity Jacobian) return (theta, diag) unchanged - checked by the differential run",
                "the matching stage reads negloglike_comp<n>.dat (optimiser output) and derivs_comp<n>.dat (Fisher stage), never the Fisher stage's reported parameters (codelen_comp<n>_deriv.dat has no reader)"]
@@ -53,10 +76,12 @@ FALLBACK = {'Aifeyn': "real aifeyn_complexity vs the Lean model (op aifeyn) and 
             'Codelen': "the statement of fisher_vs_match_identity_chain checked directly on the two REAL routines (real convert_params -> stage files -> real match.main, exact-threshold rows "
                        "included; fisher-vs-match:*), and hfin_needed's predicted difference on the real routines (corr:hfin_needed); the model-vs-code comparison of this table is C07's",
             'Match': "as Codelen (the same differential run drives the real match.main); the model-vs-code comparison of this table is C05's",
+            'Optim': "real single_function under a scripted minimiser vs the Lean model (op singlefit: what is handed to the Fisher routine, returned nll / DL / parameters; corr:singlefit-scripted) at "
+                     "escalated depth, plus the option-space runs (log_opt x 0..3 parameters x sign patterns) against the closed form; the model-vs-code comparison of this table is C10's",
             'Single': "the real routines traced inside the real single_function (optimise_fun, run_sympify, convert_params, aifeyn_complexity wrapped wherever fit_single reaches them): "
                       "order of the calls = theorem call_order, returned nll bit-identical to convert_params(...)[1], returned DL bit-identical to (cp[1] + cp[3]) + aifeyn_complexity(...) "
                       "(corr:single-trace), on library trees and integer-constant trees, plus single API vs closed form vs pipeline row"}
-MODELLED = ["fit_single.py:single_function", "fit_single.py:fit_from_string", "test_all_Fisher.py:convert_params", "match.py:main"]
+MODELLED = ["fit_single.py:single_function", "fit_single.py:fit_from_string", "test_all_Fisher.py:convert_params", "match.py:main", "test_all.py:optimise_fun", "test_all.py:chi2_fcn"]
 
 TOL = 5e-3
 BASIS = [["x", "a"], ["inv"], ["+", "*", "-", "/", "pow"]]
@@ -648,11 +673,370 @@ def tree_codelen_step(ctx, N):
     return stats
 
 
+# =====================================================================================================================
+# the option space of the single-tree API: log_opt x number of parameters (0..3) x sign pattern x entry point
+# =====================================================================================================================
+
+# (labels, formula for the string entry point); linear in the parameters, closed-form optimum
+SPACE_TREES = {
+    0: [(["+", "x", "inv", "x"], "x + 1/x"), (["*", "x", "x"], "x*x")],
+    1: [(["*", "a0", "x"], "a0*x"), (["/", "a0", "x"], "a0/x"), (["+", "a0", "x"], "a0 + x")],
+    2: [(["+", "a0", "*", "a1", "x"], "a0 + a1*x"), (["+", "*", "a0", "x", "*", "a1", "inv", "x"], "a0*x + a1/x"), (["-", "*", "a0", "x", "a1"], "a0*x - a1")],
+    3: [(["+", "a0", "+", "*", "a1", "x", "/", "a2", "x"], "a0 + a1*x + a2/x"), (["+", "a0", "+", "*", "a1", "x", "*", "a2", "*", "x", "x"], "a0 + a1*x + a2*x*x")],
+}
+SPACE_NITER, SPACE_NCONV = 30, 5                       # defaults of single_function; handed to the pipeline stage as [30], [5]
+SPACE_PMIN, SPACE_PMAX = 0, 3                          # defaults of test_all.main; handed to the single API explicitly
+SPACE_REPRO = 1e-7
+
+
+def _free_eval(f, x):
+    """a parameter-free formula on the data (the harness's own reading, sympy + numpy)"""
+    import sympy
+    from esr.fitting.sympy_symbols import sympy_locs
+    locs = dict(sympy_locs)
+    e = sympy.sympify(f, locals=locs)
+    return np.broadcast_to(np.asarray(sympy.lambdify([locs["x"]], e, modules=["numpy"])(x), dtype=float), x.shape)
+
+
+def _space_closed_form(f, k, x, y, s):
+    """-> dict(nll, codelen, theta, kept, margin, nll_at=function(theta)->NLL) from the formula alone"""
+    if k == 0:
+        fx = _free_eval(f, x)
+        return dict(nll=oracle_mdl.gauss_nll(y, fx, s), codelen=0.0, theta=np.zeros(0), kept=np.zeros(0, dtype=bool), margin=9.0,
+                    nll_at=lambda th: oracle_mdl.gauss_nll(y, fx, s))
+    m = oracle_mdl.linear_model(f)
+    if m is None:
+        return None
+    cf = oracle_mdl.closed_form(x, y, s, m)
+    if cf is None:
+        return None
+    _, cols, off = m
+    X = np.column_stack([np.broadcast_to(np.asarray(c(x), dtype=float), x.shape) for c in cols])
+    o = np.broadcast_to(np.asarray(off(x), dtype=float), x.shape)
+    cf = dict(cf)
+    cf["nll_at"] = lambda th: oracle_mdl.gauss_nll(y, o + X @ np.asarray(th, dtype=float)[:k], s)
+    return cf
+
+
+def _space_data(f, k, p, npts, err, dseed):
+    """data whose weighted-least-squares solution is exactly p (noise projected off the column space)"""
+    rs = np.random.RandomState(dseed)
+    x = np.sort(rs.uniform(0.5, 3.0, npts)) if dseed % 2 else np.linspace(0.5, 3.0, npts)
+    s = err * (1.0 + (0.5 * rs.uniform(size=npts) if dseed % 3 == 0 else 0.0)) * np.ones(npts)
+    noise = rs.normal(size=npts) * s
+    if k == 0:
+        return x, _free_eval(f, x) + noise, s
+    _, cols, off = oracle_mdl.linear_model(f)
+    X = np.column_stack([np.broadcast_to(np.asarray(c(x), dtype=float), x.shape) for c in cols])
+    o = np.broadcast_to(np.asarray(off(x), dtype=float), x.shape)
+    coef = np.linalg.lstsq(X / s[:, None], noise / s, rcond=None)[0]
+    return x, o + X @ np.array(p) + (noise - X @ coef), s
+
+
+def _known_labels(lab):
+    ops = set(b for grp in BASIS for b in grp)
+    return all((l in ops) or re.fullmatch(r"a\d+", l) or re.fullmatch(r"-?\d+", l) for l in lab)
+
+
+def space_case(c):
+    """ONE (tree, data set, log_opt) through: single_function (traced), fit_from_string, and the pipeline stages
+    (real test_all.main -> test_all_Fisher.main -> match.main on a library holding this tree as its own unique function)
+    under the SAME options; judged against the closed form.  Used by the pool, by replay and by nothing else."""
+    import esr.fitting.likelihood as L
+    import esr.fitting.fit_single as fs
+    import esr.fitting.test_all as ta
+    import esr.fitting.test_all_Fisher as taf
+    import esr.fitting.match as match
+    labels, f, k, lo = list(c["labels"]), c["fcn"], c["k"], bool(c["log_opt"])
+    x, y, s = (np.array(c[q], dtype=float) for q in ("x", "y", "yerr"))
+    dd = os.path.join(c["tmp"], "sp_%d_%d" % (os.getpid(), c.get("idx", 0)))
+    os.makedirs(os.path.join(dd, "fitting"), exist_ok=True)
+    np.savetxt(os.path.join(dd, "d.txt"), np.c_[x, y, s], fmt="%.17g")
+    run = "c20sp_%d_%d" % (os.getpid(), c.get("idx", 0))
+    sink = io.StringIO()
+    with contextlib.redirect_stdout(sink):
+        lik = L.GaussLikelihood("d.txt", run, data_dir=dd, fn_set="verif_c20c_%d_%d" % (os.getpid(), c.get("idx", 0)))
+    cf = _space_closed_form(f, k, lik.xvar, lik.yvar, lik.yerr)
+    out = dict(problems=[], notes=[], labels_api=None, string_api=None, pipeline=None,
+               closed_form=dict(nll=cf["nll"], codelen=cf["codelen"], theta=[float(v) for v in cf["theta"]]))
+    tag = "%s, log_opt=%s, ML point %r" % (f, lo, [float("%.6g" % v) for v in c["p_true"]])
+    kw = dict(pmin=c["pmin"], pmax=c["pmax"], Niter=SPACE_NITER, Nconv=SPACE_NCONV, log_opt=lo, return_params=True)
+
+    def judge(who, key, nll, DL, params, lab):
+        dl_cf = cf["nll"] + cf["codelen"] + oracle_mdl.aifeyn(lab)
+        if not (abs(nll - cf["nll"]) <= TOL) or (_known_labels(lab) and not (abs(DL - dl_cf) <= 2 * TOL)):
+            out["problems"].append((key, "%s [%s] -> labels %r: nll %.8g DL %.8g, closed form nll %.8g DL %.8g (parameter code length %.8g at theta %r)"
+                                    % (who, tag, lab, nll, DL, cf["nll"], dl_cf, cf["codelen"], out["closed_form"]["theta"])))
+        if k:
+            at = cf["nll_at"](params)
+            if not (abs(at - nll) <= SPACE_REPRO * max(1.0, abs(nll))):
+                out["problems"].append(("space:params-reproduce-nll:%s" % key.split(":")[1],
+                                        "%s [%s]: reported parameters %r give NLL %.10g, not the reported %.10g (closed-form ML point %r)"
+                                        % (who, tag, [float(v) for v in params][:k], at, nll, out["closed_form"]["theta"])))
+
+    # ---- labels entry point (traced) ---------------------------------------------------------------------------------
+    fstr = None
+    tr = _Trace(fs, lik)
+    try:
+        np.random.seed(c["np_seed"])
+        with tr, contextlib.redirect_stdout(sink), np.errstate(all="ignore"):
+            nll, DL, params = fs.single_function(list(labels), BASIS, lik, **kw)
+        nll, DL, params = float(nll), float(DL), [float(v) for v in np.atleast_1d(params)]
+        out["labels_api"] = dict(nll=nll, DL=DL, params=params)
+        judge("single_function(%r)" % (labels,), "space:single-vs-closed-form", nll, DL, params, labels)
+        if tr.calls and tr.calls[0][0] == "optimise_fun":
+            fstr = str(tr.calls[0][1][0])
+            opt = tr.calls[0][3]
+            out["optimise_fun"] = dict(fcn=fstr, chi2=float(opt[0]), params=[float(v) for v in np.atleast_1d(opt[1])])
+    except Exception as e:
+        out["problems"].append(("space:single_function-raises:%s" % type(e).__name__, "single_function(%r) [%s] raises %r" % (labels, tag, e)))
+    # ---- formula-string entry point ------------------------------------------------------------------------------------
+    try:
+        np.random.seed(c["np_seed"])
+        with contextlib.redirect_stdout(sink), np.errstate(all="ignore"):
+            res = fs.fit_from_string(f, BASIS, lik, **kw)
+        nll2, DL2, lab2, par2 = float(res[0]), float(res[1]), [str(l) for l in res[2]], [float(v) for v in np.atleast_1d(res[3])]
+        out["string_api"] = dict(nll=nll2, DL=DL2, labels=lab2, params=par2)
+        if sorted(set(l for l in lab2 if re.fullmatch(r"a\d+", l))) == ["a%d" % j for j in range(k)]:
+            judge("fit_from_string(%r)" % f, "space:string-vs-closed-form", nll2, DL2, par2, lab2)
+        else:
+            out["notes"].append("string entry point re-parameterised the function: %r" % (lab2,))
+    except Exception as e:
+        out["problems"].append(("space:fit_from_string-raises:%s" % type(e).__name__, "fit_from_string(%r) [%s] raises %r" % (f, tag, e)))
+    # ---- the pipeline stages on this tree, same options ----------------------------------------------------------------
+    if fstr is not None and out["labels_api"] is not None:
+        comp = len(labels)
+        lib = os.path.join(lik.fn_dir, "compl_%d" % comp)
+        try:
+            for d in (lib, lik.out_dir, lik.temp_dir):
+                os.makedirs(d, exist_ok=True)
+            fcns = [fstr, "x"]                                     # + a parameter-free function (never a 1-row table)
+            for name in ("unique_equations", "all_equations"):
+                with open(os.path.join(lib, "%s_%d.txt" % (name, comp)), "w") as fh:
+                    fh.writelines(q + "\n" for q in fcns)
+            np.savetxt(os.path.join(lib, "matches_%d.txt" % comp), np.arange(len(fcns), dtype=float))
+            with open(os.path.join(lib, "inv_subs_%d.txt" % comp), "w") as fh:
+                w = csv.writer(fh, delimiter=";")
+                for _ in fcns:
+                    w.writerow([])                                 # own unique function: empty chain of substitutions
+            np.random.seed(c["np_seed"] + 1)
+            with contextlib.redirect_stdout(sink), np.errstate(all="ignore"):
+                ta.main(comp, lik, pmin=c["pmin"], pmax=c["pmax"], log_opt=lo, Niter_params=[SPACE_NITER], Nconv_params=[SPACE_NCONV])
+                taf.main(comp, lik)
+                match.main(comp, lik)
+            row = np.atleast_2d(np.loadtxt(os.path.join(lik.out_dir, "codelen_matches_comp%d.dat" % comp)))[0]
+            pn, pc, pp = float(row[0]), float(row[1]), [float(v) for v in row[3:3 + max(k, 1)]]
+            out["pipeline"] = dict(nll=pn, codelen=pc, params=pp)
+            a, af = out["labels_api"], oracle_mdl.aifeyn(labels)
+            if not (abs(a["nll"] - pn) <= TOL and abs((a["DL"] - af) - (pn + pc)) <= 2 * TOL):
+                out["problems"].append(("space:single-vs-pipeline", "single_function(%r) [%s]: nll %.8g, DL - tree code length %.8g; pipeline row (same options) nll %.8g, nll + "
+                                        "parameter code length %.8g, parameters %r" % (labels, tag, a["nll"], a["DL"] - af, pn, pn + pc, pp[:k])))
+            if not (abs(pn - cf["nll"]) <= TOL and abs((pn + pc) - (cf["nll"] + cf["codelen"])) <= 2 * TOL):
+                out["problems"].append(("space:pipeline-vs-closed-form", "pipeline row of %r [%s]: nll %.8g parameter code length %.8g parameters %r; closed form nll %.8g code length %.8g at theta %r"
+                                        % (fstr, tag, pn, pc, pp[:k], cf["nll"], cf["codelen"], out["closed_form"]["theta"])))
+            if k and not (abs(cf["nll_at"](pp) - pn) <= TOL):
+                out["problems"].append(("space:params-reproduce-nll:pipeline", "pipeline row of %r [%s]: reported parameters %r give NLL %.10g, not the reported %.10g"
+                                        % (fstr, tag, pp[:k], cf["nll_at"](pp), pn)))
+        except Exception as e:
+            out["problems"].append(("space:pipeline-raises:%s" % type(e).__name__, "pipeline stages on %r [%s] raise %r" % (fstr, tag, e)))
+    shutil.rmtree(dd, ignore_errors=True)
+    shutil.rmtree(lik.fn_dir, ignore_errors=True)
+    return out
+
+
+def _space_cases(ctx, deep):
+    rng = ctx.rng
+    cases = []
+    for k in (0, 1, 2, 3):
+        for labels, f in SPACE_TREES[k]:
+            for signs in itertools.product((1, -1), repeat=k):           # every sign pattern of the true parameters, mixed signs included
+                for rep in range(6 if deep else 1):
+                    for attempt in range(20):
+                        mags = [10 ** rng.uniform(0.1, 1.5) for _ in range(k)]
+                        p = [sg * m for sg, m in zip(signs, mags)]
+                        dseed = rng.randrange(1 << 30)
+                        x, y, s = _space_data(f, k, p, rng.choice([16, 24, 40]), rng.choice([0.05, 0.2, 0.5]), dseed)
+                        cf = _space_closed_form(f, k, x, y, s)
+                        if cf is not None and cf["margin"] >= 0.05 and bool(np.all(cf["kept"])):
+                            break
+                    else:
+                        continue
+                    base = dict(kind="space", labels=list(labels), fcn=f, k=k, p_true=[float(v) for v in p], signs=list(signs), pmin=SPACE_PMIN, pmax=SPACE_PMAX,
+                                x=[float(v) for v in x], y=[float(v) for v in y], yerr=[float(v) for v in s])
+                    for lo in (False, True):
+                        cases.append(dict(base, log_opt=lo, np_seed=rng.randrange(1 << 31)))
+    return cases
+
+
+def _space_pool_init():
+    sys.stdout = open(os.devnull, "w")
+
+
+def option_space(ctx, deep):
+    import multiprocessing as mp
+    import esr.fitting.fit_single, esr.fitting.test_all_Fisher, esr.fitting.match, esr.fitting.likelihood      # import before forking
+    cases = _space_cases(ctx, deep)
+    os.makedirs(os.path.join(ctx.tmp, "space"), exist_ok=True)
+    for i, c in enumerate(cases):
+        c["idx"] = i
+        c["tmp"] = os.path.join(ctx.tmp, "space")
+    t0 = time.time()
+    nproc = min(16, os.cpu_count() or 1, max(1, len(cases)))
+    order = sorted(range(len(cases)), key=lambda i: -(cases[i]["k"] * (4 if cases[i]["log_opt"] and cases[i]["k"] == 2 else 1)))
+    with mp.get_context("fork").Pool(nproc, initializer=_space_pool_init) as pool:
+        results = pool.map(space_case, [cases[i] for i in order], chunksize=1)
+    res = [None] * len(cases)
+    for i, r in zip(order, results):
+        res[i] = r
+    stat = dict(cases=len(cases), per_setting={}, string_compared=0, pipeline_rows=0, string_reparameterised=0, problems=0)
+    for c, r in zip(cases, res):
+        mode = "log" if (c["log_opt"] and 1 <= c["k"] <= 2) else "lin"
+        sg = "".join("+" if q > 0 else "-" for q in c["signs"]) or "none"
+        ctx.case(("space", c["fcn"], c["log_opt"], sg, c["np_seed"]), nontrivial=c["k"] > 0)
+        key = "k=%d:log_opt=%d" % (c["k"], int(c["log_opt"]))
+        st = stat["per_setting"].setdefault(key, dict(n=0, space=mode, sign_patterns=[], labels_entry=0, string_entry=0, pipeline_rows=0))
+        st["n"] += 1
+        if sg not in st["sign_patterns"]:
+            st["sign_patterns"].append(sg)
+        st["labels_entry"] += int(r["labels_api"] is not None)
+        st["string_entry"] += int(r["string_api"] is not None)
+        st["pipeline_rows"] += int(r["pipeline"] is not None)
+        stat["string_compared"] += int(r["string_api"] is not None); stat["pipeline_rows"] += int(r["pipeline"] is not None)
+        stat["string_reparameterised"] += len(r["notes"])
+        rp = {q: c[q] for q in ("kind", "labels", "fcn", "k", "p_true", "signs", "log_opt", "pmin", "pmax", "np_seed", "x", "y", "yerr")}
+        for pkey, what in r["problems"]:
+            stat["problems"] += 1
+            ctx.fail("%s:k=%d:log_opt=%d" % (pkey, c["k"], int(c["log_opt"])), what, rp)
+    for q in (len(cases) // 3, (2 * len(cases)) // 3):
+        if cases:
+            c, r = cases[q], res[q]
+            ctx.sample(dict(kind="option-space", labels=c["labels"], fcn=c["fcn"], log_opt=c["log_opt"], ml_point=c["p_true"], labels_entry=r["labels_api"],
+                            string_entry=r["string_api"], pipeline_row=r["pipeline"], closed_form=r["closed_form"]), cap=14)
+    stat["wall_s"] = round(time.time() - t0, 1)
+    stat["nproc"] = nproc
+    stat["options"] = dict(pmin=SPACE_PMIN, pmax=SPACE_PMAX, Niter=SPACE_NITER, Nconv=SPACE_NCONV, pipeline="Niter_params=[%d], Nconv_params=[%d]" % (SPACE_NITER, SPACE_NCONV))
+    ctx.extra["option_space"] = stat
+    return stat
+
+
+# =====================================================================================================================
+# Model/SingleFit vs the real single_function under a scripted minimiser (what is handed to the Fisher routine)
+# =====================================================================================================================
+
+SCR_ITER = [(30, 5), (30, 5), (6, 2), (3, 1), (10, 3), (2, 2), (4, 5), (0, 1)]           # last two: ValueError
+
+
+def scripted_single(ctx, n):
+    """real fit_single.single_function with test_all.minimize replaced by a PRNG-scripted oracle (C10's script generator) and the
+    Fisher routine replaced by a recorder that returns what it is handed + a fixed code length, against op `singlefit`
+    (Model/SingleFit.singleFunction over Model/Optim.optimiseFun): returned (nll, DL, params) and the (theta, chi2) handed on"""
+    import scipy.optimize
+    import props.c10 as c10
+    import esr.fitting.likelihood as L
+    import esr.fitting.fit_single as fs
+    import esr.fitting.test_all as ta
+    import esr.generation.generator as generator
+    import esr.generation.simplifier as simplifier
+    rng = ctx.rng
+    dd = os.path.join(ctx.tmp, "c20_scripted"); os.makedirs(dd, exist_ok=True)
+    x = np.linspace(0.4, 2.6, 9); s = np.array([0.5, 0.4, 0.6, 0.5, 0.3, 0.7, 0.5, 0.45, 0.55])
+    y = np.array([0.3, -1.0, 2.0, 0.5, 1.5, -0.7, 0.9, 2.2, -0.4])
+    np.savetxt(os.path.join(dd, "d.txt"), np.c_[x, y, s], fmt="%.17g")
+    with contextlib.redirect_stdout(io.StringIO()):
+        lik = L.GaussLikelihood("d.txt", "c20_scripted", data_dir=dd, fn_set="core_maths")
+    state = {}
+
+    def oracle(fun, x0, args=(), method=None, options=None, **kw):
+        i = state["i"]; state["i"] = i + 1
+        it = state["script"].get(i)
+        if it == "T":
+            raise simplifier.TimeoutException("scripted")
+        if it == "N":
+            raise NameError("scripted")
+        if it == "E":
+            raise FloatingPointError("scripted")
+        xx, f, su = it
+        return scipy.optimize.OptimizeResult(x=np.array(xx, dtype=float), fun=np.float64(f), success=bool(su), nit=1)
+
+    def recorder(fcn, eq, integrated, theta, likelihood, chi2, max_param=4):
+        state["handed"] = ([float(v) for v in np.atleast_1d(theta)], float(chi2))
+        return np.array(theta, dtype=float), chi2, np.full(int(max_param * (max_param + 1) / 2), np.nan), state["cl"]
+
+    ops, real, meta = [], [], []
+    # the Fisher routine wherever fit_single can reach it (module attribute and every global of fit_single bound to it), as _Trace does
+    import esr.fitting.test_all_Fisher as taf
+    real_min, real_cp = ta.minimize, taf.convert_params
+    undo = [(ta, "minimize", real_min), (taf, "convert_params", real_cp)]
+    ta.minimize, taf.convert_params = oracle, recorder
+    for k_, v_ in list(vars(fs).items()):
+        if v_ is real_cp:
+            undo.append((fs, k_, real_cp)); setattr(fs, k_, recorder)
+    try:
+        for t in range(n):
+            k = rng.choice([0, 1, 1, 2, 2, 2, 3])
+            labels, f = rng.choice(SPACE_TREES[k])
+            lo = rng.random() < 0.6
+            niter, nconv = rng.choice(SCR_ITER)
+            cl = rng.choice([0.0, 3.25, -1.5, rng.uniform(-5, 20)])
+            af = float(generator.aifeyn_complexity(list(labels), ["a%i" % j for j in range(k)]))
+            script = c10._Script(rng.randrange(1 << 62), max(k, 1))
+            state.update(i=0, script=script, handed=None, cl=cl)
+            try:
+                with contextlib.redirect_stdout(io.StringIO()), np.errstate(all="ignore"):
+                    nll, DL, params = fs.single_function(list(labels), BASIS, lik, Niter=niter, Nconv=nconv, log_opt=lo, return_params=True)
+                out = ("ret", float(nll), float(DL), [float(v) for v in np.atleast_1d(params)], state["handed"])
+            except ValueError:
+                out = ("raise ValueError",)
+            except NameError:
+                out = ("raise NameError",)
+            ncalls = state["i"]
+            direct = oracle_mdl.gauss_nll(lik.yvar, _free_eval(f, lik.xvar), lik.yerr) if k == 0 else 0.0
+            toks = [c10._Script.token(script.get(i)) for i in range(ncalls + 8)]
+            ops.append("singlefit %s %s %d %d %d 0 0 ok %d 1 %s %s %d %d %s" % (common.f2b(cl), common.f2b(af), k, k, int(lo), int(k > 0), ("0" * (2 ** k)) if k else "-",
+                                                                             common.f2b(direct), niter, nconv, " ".join(toks)))
+            real.append(out)
+            meta.append(dict(labels=labels, k=k, log_opt=lo, niter=niter, nconv=nconv, ncalls=ncalls, kind=script.kind))
+            ctx.case(("scripted-single", ops[-1][:200]), nontrivial=ncalls > 0)
+    finally:
+        for mod_, name_, orig_ in reversed(undo):
+            setattr(mod_, name_, orig_)
+    outs = common.model(ops)
+    same = c10._same
+    bad = 0
+    settings = {}
+    for op, r, o, m in zip(ops, real, outs, meta):
+        t = o.split()
+        if r[0] == "ret":
+            ok = len(t) == 6 and t[0] == "ret"
+            if ok:
+                fl = lambda q: [] if q == "-" else [common.b2f(v) for v in q.split(",")]
+                mn, md, mp_, mc, mh = common.b2f(t[1]), common.b2f(t[2]), fl(t[3]), common.b2f(t[4]), fl(t[5])
+                rel = 1e-9 if m["k"] == 0 else 1e-12
+                hp, hc = r[4] if r[4] is not None else (None, None)
+                ok = (same(r[1], mn, rel) and same(r[2], md, max(rel, 1e-12)) and len(mp_) == len(r[3]) and all(same(a, b, 1e-9) for a, b in zip(r[3], mp_))
+                      and hp is not None and same(hc, mc, rel) and len(hp) == len(mh) and all(same(a, b, 1e-9) for a, b in zip(hp, mh)))
+        else:
+            ok = o == r[0]
+        sk = "k=%d:log_opt=%d" % (m["k"], int(m["log_opt"]))
+        settings[sk] = settings.get(sk, 0) + 1
+        if not ok:
+            bad += 1
+            ctx.disagree("corr:singlefit-scripted", dict(op=op[:500], code=repr(r)[:400], model=o[:400], meta=m))
+    if ops:
+        q = len(ops) // 2
+        ctx.sample(dict(kind="scripted single_function", meta=meta[q], code=repr(real[q])[:300], model=outs[q][:300]), cap=15)
+    ctx.extra["singlefit_scripted"] = dict(n=len(ops), mismatch=bad, per_setting=settings, outcomes={k_: sum(1 for r in real if r[0] == k_) for k_ in ("ret", "raise ValueError", "raise NameError")})
+    return len(ops), bad
+
+
 def run(ctx):
     deep = not ctx.quick
     drift = extract.drifted(ctx.proof.get("extract", {}), ["test_all_Fisher.py:convert_params", "match.py:main", "simplifier.py:convert_params"]) if ctx.proof else []
-    if drift:
-        ctx.extra["drift_escalation"] = drift
+    drift_opt = extract.drifted(ctx.proof.get("extract", {}), ["test_all.py:optimise_fun", "test_all.py:chi2_fcn"]) if ctx.proof else []
+    drift_opt = [d for d in drift_opt if not d.startswith("table:") or d == "table:Optim"]
+    drift = [d for d in drift if d != "table:Optim"]
+    if drift or drift_opt:
+        ctx.extra["drift_escalation"] = drift + drift_opt
     # ---- Fisher stage vs matching stage, the two real routines on the same inputs --------------------------------------
     import time as _time
     t0 = _time.time()
@@ -662,6 +1046,17 @@ def run(ctx):
     fisher_vs_match(ctx, deep or any(d not in single_tables for d in drift))
     excluded_point(ctx)
     ctx.extra["fisher_vs_match_wall_s"] = round(_time.time() - t0, 2)
+    # ---- the option space of the single-tree API (log_opt x 0..3 parameters x sign patterns x entry points) ------------------
+    scripted_ok = False
+    try:
+        n_s, bad_s = scripted_single(ctx, 4000 if (deep or drift_opt) else 400)
+        scripted_ok = n_s > 0 and bad_s == 0
+    except Exception as e:                                       # model executable missing / protocol broken
+        ctx.disagree("corr:singlefit-scripted", "could not run the scripted correspondence: %r" % (e,))
+    try:
+        option_space(ctx, deep)
+    except Exception as e:
+        ctx.disagree("space:harness", "could not run the option-space cases: %r" % (e,))
     comp = 4
     g = libgen.generate(ctx, "core_maths", list(range(1, comp + 1)), P=1, copy="c20_lib")
     if not g["ok"]:
@@ -757,8 +1152,10 @@ def run(ctx):
     ctx.extra["single_trace"] = tstat
     if tstat["traced"] == 0:
         ctx.disagree("corr:single-trace", "no call of single_function could be traced")
-    ctx.extra["corr_obligations"] = 5
-    ctx.extra["corr_discharged"] = (int(not any(f["key"].startswith("single") or f["key"].startswith("string") or f["key"].startswith("pipeline") for f in ctx.failures))
+    ctx.extra["corr_obligations"] = 6
+    ctx.extra["corr_discharged"] = (int(not any(f["key"].startswith("single") or f["key"].startswith("string") or f["key"].startswith("pipeline") or f["key"].startswith("space") for f in ctx.failures)
+                                        and not any(d["name"] == "space:harness" for d in ctx.disagreements))
+                                    + int(scripted_ok)
                                     + int(not any(f["key"].startswith("fisher-vs-match") for f in ctx.failures) and not any(d["name"] == "fvm:harness" for d in ctx.disagreements))
                                     + int(not any(d["name"] in ("corr:hfin_needed", "fvm:excluded-point") for d in ctx.disagreements))
                                     + int(tstat["traced"] > 0 and not any(d["name"] == "corr:single-trace" for d in ctx.disagreements))
@@ -776,6 +1173,19 @@ def replay(ctx, data):
         for kind, msg in bad:
             print("replay: %s: %s" % (kind, msg))
         return not bad
+    if data.get("kind") == "space":
+        c = dict(data)
+        c["tmp"] = os.path.join(ctx.tmp, "space"); os.makedirs(c["tmp"], exist_ok=True)
+        r = space_case(c)
+        print("replay: %s, labels %r, log_opt=%s, numpy seed %d, pmin=%s pmax=%s Niter=%d Nconv=%d" % (c["fcn"], c["labels"], c["log_opt"], c["np_seed"], c["pmin"], c["pmax"], SPACE_NITER, SPACE_NCONV))
+        print("replay:   closed form          %r" % (r["closed_form"],))
+        print("replay:   optimise_fun returned %r" % (r.get("optimise_fun"),))
+        print("replay:   single_function      %r" % (r["labels_api"],))
+        print("replay:   fit_from_string      %r" % (r["string_api"],))
+        print("replay:   pipeline row         %r" % (r["pipeline"],))
+        for key, what in r["problems"]:
+            print("replay: %s: %s" % (key, what))
+        return not r["problems"]
     if data.get("kind") == "step4":
         import esr.generation.generator as generator
         val = float(generator.aifeyn_complexity(list(data["labels"]), list(data["params"])))
